@@ -12,16 +12,20 @@ PROPS["C10"] = dict(
         technique="exhaustive enumeration of version triples x open modes x Force on real files; ordering laws on all pairs/triples",
         text="The whole configuration space the statement quantifies over is small and is enumerated completely: every stored "
              "version triple of a cube around the library version plus integer extremes, in all three open modes with Force off "
-             "and on, against the statement's gate formula; FormatVersion order laws on all ordered pairs and all cube triples. "
+             "and on, against the statement's gate formula; a forced ReadWrite open directly after every refused open; the cube again with the "
+             "triple stored as int8/16/64, big-endian and unsigned integers (files of other NIX implementations); the cube again as the SECOND "
+             "open of the file while a forced ReadOnly / ReadWrite handle of the same process holds it open (gate must follow the requested mode); "
+             "FormatVersion order laws on all ordered pairs and all cube triples. "
              "Exhaustive within that cube, hence 'exploration' with exhaustive:true.",
         note="Trusted: HDF5 attribute I/O used to plant the version triple; the formula is expressed relative to the version a "
              "freshly created file reports, not hard-coded."),
     evidence=dict(
-        keys=dict(evaluations=("sum", [("count", "opens"), ("count", "pair_laws"), ("count", "triple_laws")]),
+        keys=dict(evaluations=("sum", [("count", "opens"), ("count", "opens_typed"), ("count", "opens_second"), ("count", "pair_laws"), ("count", "triple_laws")]),
                   distinct_nontrivial=("distinct", "outcomes")),
         rule="every version triple of the cube [Lx-1..Lx+2]x[Ly-2..Ly+2]x[Lz-1..Lz+3] around the library version L plus "
              "INT_MIN/-1/INT_MAX extremes is written into the header of a valid file (HDF5 C API) and opened in "
-             "{ReadOnly,ReadWrite,Overwrite} x Force{off,on}; ordering laws on all ordered pairs and on all triples with a "
+             "{ReadOnly,ReadWrite,Overwrite} x Force{off,on}; cube x 10 integer storage types of the attribute x modes x Force; cube x first handle "
+             "{ReadOnly,ReadWrite}+Force x second open {ReadOnly,ReadWrite} x Force (HDF5-forbidden combinations excluded); ordering laws on all ordered pairs and on all triples with a "
              "in the cube. distinct_nontrivial = distinct (version class relative to L, mode, force, outcome) tuples and "
              "distinct comparison outcomes.",
         bound=dict(quick="whole space", thorough="whole space"),
@@ -40,14 +44,15 @@ PROPS["C07"] = dict(
              "axes with decimal and binary intervals and offsets, 8 tick vectors, 4 set and 3 data-frame axes), every sample index "
              "up to N (300 quick / 10000 thorough), the positions on / one ulp beside / between / below / beyond the coordinates, all "
              "five rules, and all start/end pairs over blocks of neighbouring candidates in both range modes, through the scalar, pair "
-             "and vector overloads and util::positionToIndex. Complete over that grid; says nothing about axes outside the family. Part 2 (histories): every sequence "
+             "and vector overloads and util::positionToIndex, and through every deprecated form (scalar = GreaterOrEqual or error, pair / list = inclusive or error, "
+             "RangeDimension strict / filtering list) with the request list whole, reduced to its valid pairs and cut after the first invalid pair. Complete over that grid; says nothing about axes outside the family. Part 2 (histories): every sequence "
              "up to depth 3/4 of axis-changing operations (ticks, interval, offset, labels, frame rows, data of an aliased array; through either of two live handles or through "
              "the array; REOPEN) with the conversion grid evaluated after the last step through the handle returned by append, a second earlier handle and a fresh one.",
         note="Reference = binary search over the coordinates the library itself reports (checked to equal offset+i*interval / the ticks "
              "given and to be strictly ascending); exact double comparisons. Axes that are not strictly ascending in double are skipped "
              "and counted."),
     evidence=dict(
-        keys=dict(evaluations=("sum", [("count", "scalar_calls"), ("count", "pair_calls"), ("count", "roundtrips"), ("count", "conversions")]),
+        keys=dict(evaluations=("sum", [("count", "scalar_calls"), ("count", "pair_calls"), ("count", "legacy_calls"), ("count", "roundtrips"), ("count", "conversions")]),
                   distinct_nontrivial=("distinct", "outcomes")),
         rule="grid: axis family x sample index 0..N x {x_i, x_i-1ulp, x_i+1ulp, midpoint, below axis, beyond axis} x 5 PositionMatch rules; "
              "start/end pairs = all ordered pairs of the candidates around three anchor blocks x 2 RangeMatch modes; "
